@@ -64,12 +64,12 @@ type limCfg struct {
 }
 
 type limOp struct {
-	Op      string `json:"op"`
-	Key     string `json:"key"`
-	D       int    `json:"d,omitempty"`
-	V       int    `json:"v"`
-	I       int    `json:"i,omitempty"`
-	Outcome string `json:"outcome,omitempty"`
+	Op      string    `json:"op"`
+	Key     string    `json:"key"`
+	D       int       `json:"d,omitempty"`
+	V       int       `json:"v"`
+	I       int       `json:"i,omitempty"`
+	Outcome string    `json:"outcome,omitempty"`
 	Items   []limItem `json:"items,omitempty"`
 }
 
